@@ -198,7 +198,7 @@ def run(ctx, rep, tier):
                       f"{q} returns a value on some paths but can also reach the end of its body and return None; its callers use the result unconditionally "
                       "(TypeError/AttributeError on None)")
     lk = ast.unparse(model.func("ProgramData.lookup"))
-    rep.check("val = obj.debug_lookup(tag)" in lk and "if val is not None:" in lk, "C18.e", "ProgramData.lookup", "debug_lookup results are None-tested", "debug_lookup contract changed")
+    rep.check(model.has("ProgramData.lookup", "val = obj.debug_lookup(tag)") and model.has("ProgramData.lookup", "if val is not None:"), "C18.e", "ProgramData.lookup", "debug_lookup results are None-tested", "debug_lookup contract changed")
     cp = model.func("DfaCompileCtx.compile")
     body = strip_doc(cp.body)
     conv = next((i for i, st in enumerate(body) if "self.ast.convert(" in ast.unparse(st)), None)
@@ -208,7 +208,7 @@ def run(ctx, rep, tier):
               "ParseCtx.parse leaves self.ast = None when the parser body consists only of actions (adopt_actions_from's second component); compile() dereferences it "
               "unconditionally: AttributeError instead of a diagnosed error")
     pp = ast.unparse(model.func("ParseCtx.parse"))
-    rep.check("self.start_actions, self.ast = self.ast.adopt_actions_from()" in pp, "C18.e", "ParseCtx.parse", "leading actions become start actions", "start action adoption changed")
+    rep.check(model.has("ParseCtx.parse", "self.start_actions, self.ast = self.ast.adopt_actions_from()"), "C18.e", "ParseCtx.parse", "leading actions become start actions", "start action adoption changed")
 
     # ------------------------------------------------------------------ C18.f diagnostics render
     rep.rule("C18.f", "error classes whose message reads `.value` of their source are constructed with tokens")
@@ -225,7 +225,7 @@ def run(ctx, rep, tier):
     if n_f < 6:
         raise AnalysisError("C18.f: UndefinedReferenceError construction sites not found")
     us = ast.unparse(model.func("UndefinedReferenceError.__str__"))
-    rep.check("self.source.value" in us, "C18.f", "UndefinedReferenceError.__str__", "reads source.value", "message rendering changed: re-derive the typing rule")
+    rep.check(model.has("UndefinedReferenceError.__str__", "self.source.value"), "C18.f", "UndefinedReferenceError.__str__", "reads source.value", "message rendering changed: re-derive the typing rule")
     for cls in ("IllegalASTStateError", "IllegalDFAStateConflictsError", "UnableToScheduleActionError", "DuplicateDefinitionError", "NMFUError"):
         o, sf = model.resolve_method(cls, "__str__")
         rep.check(sf is not None and o != "Exception", "C18.f", f"{cls}.__str__", "diagnostic renders through _get_message", f"{cls} has no __str__")
